@@ -12,6 +12,7 @@ RULE = ("programs from the typed generator (vf/progs.py; depth/statement bounds 
         "texts; non-trivial = >=3 distinct construct kinds and accepted by the parser.")
 RULE += (" " + 'Also: an exhaustive small-domain grid of 2,074 one-binding programs (ranges over start, end in 0..6 x step in none,1,2,3,5,7,0 and negative ones; int and float arithmetic and comparisons over all operand pairs of small pools; `is` over every type name x value kind; the four casts of every value kind and of 16 string forms; mixed-type ==, +, in; not, &&, || on every value kind; select on every value kind; boolean selects over 8 arm sets with and without default), judged by the same reference interpreter.')
 RULE += (" " + 'Round 6: int() of a float truncates towards zero (types_test.ucg: `truncates`), with a grid of 15 floats on both sides of zero.')
+RULE += (" " + 'Round 7: 35 grid programs with a bareword left of `in` that is also bound (to seven kinds of value, as a parameter), against tuple and list subjects.')
 
 
 def judge_program(probe, stmts, text=None, fresh=False):
@@ -181,6 +182,16 @@ def grid_programs():
     for x in (-2.5, -1.5, -1.0, -0.5, -0.25, 0.0, 0.25, 0.5, 1.0, 1.5, 2.5, 3.99, -3.99, 1e15 + 0.5, -1e15 - 0.5):
         out.append(("cast-int-of-float", ("cast", "int", F(x))))
         out.append(("cast-int-of-float-product", ("cast", "int", ("bin", "*", F(x), ("float", "1.0")))))
+    # a bareword on the left of `in` is a FIELD NAME when the subject is a tuple, whatever the same word is bound to, and a
+    # binding when the subject is a list
+    S_ = lambda n: ("sym", n)
+    T_ = lambda *names: ("tuple", [(n, I(1)) for n in names])
+    for bound in (("str", "example.org"), ("str", "host"), ("str", "other"), I(80), ("bool", True), ("list", [I(1)]), ("null",)):
+        out.append(("in-bareword-also-bound", ("stmts", [("let", "host", bound), ("let", "g", ("bin", "in", S_("host"), T_("host", "other")))])))
+        out.append(("in-bareword-also-bound", ("stmts", [("let", "host", bound), ("let", "g", ("bin", "in", S_("host"), T_("other", "port")))])))
+        out.append(("in-bareword-also-bound", ("stmts", [("let", "host", bound), ("let", "t", T_("a", "host")), ("let", "g", ("bin", "in", S_("host"), S_("t")))])))
+        out.append(("in-bareword-parameter", ("stmts", [("let", "f", ("func", ["host"], ("bin", "in", S_("host"), T_("host")))), ("let", "g", ("call", S_("f"), [bound]))])))
+        out.append(("in-bareword-list-subject", ("stmts", [("let", "host", bound), ("let", "g", ("bin", "in", S_("host"), ("list", [bound, I(7)])))])))
     vals = {"int": I(3), "float": ("float", "1.5"), "str": ("str", "s"), "bool": ("bool", True), "null": ("null",), "list": ("list", [I(1)]),
             "tuple": ("tuple", [("a", I(1))]), "func": ("func", ["p"], ("sym", "p")), "module": ("module", [], None, [("let", "r", I(1))]),
             "empty-list": ("list", []), "empty-tuple": ("tuple", []), "empty-str": ("str", "")}
@@ -219,7 +230,7 @@ def task_grid(args):
     for i, (label, e) in enumerate(grid_programs()):
         if i % nshards != idx:
             continue
-        stmts = [("let", "g", e)]
+        stmts = e[1] if e[0] == "stmts" else [("let", "g", e)]
         v, d, text = judge_program(probe, stmts)
         res.case(text, nontrivial=True)
         res.count("grid:" + label)
